@@ -56,7 +56,7 @@ def reduced_alphabet():
 
 
 def generate(tier, rng):
-    n_random = 1500 if tier == "quick" else 12000
+    n_random = 3500 if tier == "quick" else 12000
     length = 25 if tier == "quick" else 60
     alpha = reduced_alphabet()
     opens = alpha[:3]
